@@ -317,9 +317,9 @@ def _classify_res(v):
         return "uniform-draw-exactly-0:Reservoir raises (log/ZeroDivision)"
     return v['what'][:90]
 
-@obligation('C09','reservoir', bounds={'quick':"N<=4 items (N<=3 for count 2 and 3); count in {None,0,1,2,3}, strict or not; arbitrary uniform stream of which at most one draw (two in the thorough tier) is exactly 0.0 (draws of a pre-drawn batch that cannot be consumed for N items are the constant 1/2); libm by contract",'thorough':"N<=5, count<=4"},
+@obligation('C09','reservoir', bounds={'quick':"N<=4 items (N<=3 for count 2 and 3); count in {None,0,1,2,3}, strict or not; arbitrary uniform stream of which at most one draw is exactly 0.0 (draws of a pre-drawn batch that cannot be consumed for N items are the constant 1/2); libm by contract",'thorough':"N<=4 with count<=4, N=5 with count in {None,0,1}"},
             functions=FUNCS, classify=_classify_res,
-            params=lambda tier: [dict(n=n, count=c, strict=s) for n in range(0, 5 if tier=='quick' else 6) for c in ([None,0,1,2,3] if tier=='quick' else [None,0,1,2,3,4]) for s in (False,True) if not (tier == 'quick' and n == 4 and c in (2,3))],
+            params=lambda tier: [dict(n=n, count=c, strict=s) for n in range(0, 5 if tier=='quick' else 6) for c in ([None,0,1,2,3] if tier=='quick' else [None,0,1,2,3,4]) for s in (False,True) if not (tier == 'quick' and n == 4 and c in (2,3)) and not (tier != 'quick' and n == 5 and c in (2,3,4))],
             stubs=["uniform stream arbitrary", "math.log / ** by contract"], budget={'quick':80,'thorough':900})
 def reservoir(sym, n, count, strict):
     inp = make_interactions(sym, n, 'simulated', 'none')
@@ -332,7 +332,7 @@ def reservoir(sym, n, count, strict):
         if symbolic:
             pf.math = _MathStub(sym, n)
             SymReal.__pow__ = lambda self, x, m=None: _pow(self, x)
-        StubRandom.max_zero = 1 if os.environ.get('VERIF_TIER_EFFECTIVE','quick') == 'quick' else 2
+        StubRandom.max_zero = 1
         StubRandom.max_symbolic = (count or 0) + 3*(n+1+StubRandom.max_zero)      # shuffle of the first `count` items, then one (r1,r2,r3) triple per replacement or skipped zero draw
         with stubbed(sym, [pf]):
             out = list(flt.filter(iter(inp)))
